@@ -157,7 +157,12 @@ class MTypeBool(MTypeBase):
         super().__init__(node)
 
     @classmethod
-    def new_node(cls, value: T.Optional[str] = None) -> BaseNode:
+    def new_node(cls, value: T.Union[str, bool, None] = None) -> BaseNode:
+        if isinstance(value, str):
+            # The command line delivers text: 'false' must not become true
+            if value.lower() not in {'true', 'false'}:
+                raise RewriterException(f'Invalid boolean value "{value}": must be "true" or "false"')
+            value = value.lower() == 'true'
         return BooleanNode(Token('', '', 0, 0, 0, None, bool(value)))
 
     @classmethod
